@@ -308,3 +308,20 @@ package implementation
 //@ func getWeightedStakeAmount(amount, stakingTime)
 //@   safety
 //@   requires amount != nil
+
+// liquidity rewards: percentages are divided by constants; each stake's share by the cumulated stake of its token, checked
+// non-zero in the same iteration
+//@ func computeLiquidityStakeRewardsForEpoch(context, epoch)
+//@   safety
+// swap decay, bridge fee, fusion unit: constant divisors
+//@ func ApplyDecay(deposit, currentEpoch)
+//@   safety
+//@ func WrapTokenMethod.ReceiveBlock(p, context, sendBlock)
+//@   safety
+//@ func FuseMethod.ValidateSendBlock(p, block)
+//@   safety
+// the weighted stake is a new number; computing it changes nothing else
+//@ func getWeightedLiquidityStake(info, startTime, endTime)
+//@   requires info != nil && info.WeightedAmount != nil
+//@   ensures result != nil && fresh(result)
+//@   modifies nothing
